@@ -320,6 +320,12 @@ func (w *Witness) Update(pk *gabikeys.PublicKey, update *Update) error {
 		if newAcc.Time <= ourAcc.Time {
 			return nil
 		}
+		// The accumulator with our index signed again at a later time has our value. If the value
+		// differs, this is not our accumulator but, e.g., that of another chain signed with the same
+		// key: adopting it would leave us with a witness that is no longer valid.
+		if newAcc.Nu == nil || ourAcc.Nu == nil || newAcc.Nu.Cmp(ourAcc.Nu) != 0 {
+			return errors.New("update is for a different accumulator")
+		}
 		*w.SignedAccumulator = *update.SignedAccumulator
 		w.Updated = time.Unix(newAcc.Time, 0)
 		return nil
